@@ -41,6 +41,7 @@ LEVEL = {
 LEVEL["decided"] += " The table includes reactions that raise a new exception explicitly chained to the block's (`raise New from err`); (R13.4) decorator use creates a new manager per call (R15.2, shared)."
 LEVEL["decided"] += ' (R13.5) decorator use: the call runs the function inside one context and returns its result from inside it (R15.1, shared).'
 LEVEL["decided"] += ' R13.3 has a fourth enter cell: a RuntimeError the generator raises before its first yield reaches the caller as it is.'
+LEVEL["decided"] += ' The table has 44 cells: a block that ended normally and a generator that raises a RuntimeError (with or without a StopAsyncIteration of its own as cause) propagates it.'
 
 HIER = {
     "BaseException": None, "Exception": "BaseException", "GeneratorExit": "BaseException",
